@@ -667,6 +667,10 @@ func (sel *Selection) Set(v val.Value) error {
 		if err := (editor{}).checkKeyLeaf(sel.parent, m, v); err != nil {
 			return err
 		}
+		// a leaf of a case takes the place of whatever other case holds data, like in an upsert
+		if err := (editor{basePath: sel.parent.Path}).clearOnDifferentChoiceCase(sel.parent, m); err != nil {
+			return err
+		}
 	}
 	r := FieldRequest{
 		Request: Request{
